@@ -207,7 +207,7 @@ def cat(*parts):
     return zs[0] if len(zs) == 1 else z3.Concat(*zs)
 
 
-def lemma(name, fn, floor=1, split=0):
+def lemma(name, fn, floor=1, split=0, tier="P", note=""):
     def deco(driver):
         def wrapped(P):
             install(P)
@@ -215,7 +215,7 @@ def lemma(name, fn, floor=1, split=0):
             driver(P)
             P.cover(name)
         contract("C03", f"render.{name}", [EX + f for f in ([fn] if isinstance(fn, str) else fn)] + [EX + "_yield", EX + "_join", EX + "_precedence", EX + "Expr.__str__"],
-                 floor=floor, replay="replay_expression", split=split)(wrapped)
+                 floor=floor, replay="replay_expression", split=split, tier=tier, note=note)(wrapped)
         return driver
     return deco
 
@@ -559,6 +559,58 @@ def l_joined(P):
         P.prove("text_is_f_quote_parts_quote", out[1] == cat("f'", joined(chs, "", TUPLE), "'"))
         P.prove("parts_are_built_as_text_of_the_string_not_of_an_enclosing_field",
                 all(kw.get("in_joined_str") is True and kw.get("in_formatted_str") is False for _, kw in P.ghost["built"]))
+
+
+@lemma("Lambda", ["ExprLambda.iterate"], split=16, tier="BS",
+       note="parameter lists with <= 2 positional-only, <= 1 positional-or-keyword, an optional *args, <= 1 keyword-only and an optional **kwargs parameter; names and "
+            "defaults are symbolic; the body is of an arbitrary class when there is no parameter and a plain name otherwise")
+def l_lambda(P):
+    """`lambda <parameters>: <body>` with the markers where Python wants them: `/` right after the last positional-only parameter (also when nothing
+    follows), a bare `*` ahead of the first keyword-only parameter unless `*args` is there, defaults after `=`, the body grouped as a test."""
+    PKIND = "ParameterKind"
+    kinds_ = {m.name: m for m in P.enum_members(PKIND)}
+    _, body = child_node(P, "body")
+    groups = [("positional_only", 2), ("positional_or_keyword", 1), ("var_positional", 1), ("keyword_only", 1), ("var_keyword", 1)]
+    params, spec_parts = [], []
+    present = {}
+    for kind, cap in groups:
+        n = 0
+        for j in range(cap):
+            if P.branch(z3.Bool(f"has_{kind}_{j}")):
+                n += 1
+            else:
+                break
+        present[kind] = n
+    for kind, cap in groups:
+        if kind == "keyword_only" and present[kind] and not present["var_positional"]:
+            spec_parts.append(z3.StringVal("*"))
+        for j in range(present[kind]):
+            nm = z3.String(f"{kind}_{j}_name")
+            has_default = z3.Bool(f"{kind}_{j}_has_default")
+            dflt = z3.String(f"{kind}_{j}_default")
+            P.assume(z3.Length(dflt) > 0)          # a default is a non-empty piece of source text (or an expression)
+            with_default = kind not in ("var_positional", "var_keyword") and P.branch(has_default)
+            params.append(SObj("ExprParameter", {"name": SStr(nm), "kind": kinds_[kind], "annotation": None, "default": SStr(dflt) if with_default else None},
+                               ident=z3.Int(f"{kind}_{j}_id"), frozen=True))
+            prefix = {"var_positional": "*", "var_keyword": "**"}.get(kind, "")
+            text = z3.Concat(z3.StringVal(prefix), nm) if prefix else nm
+            if with_default:
+                text = z3.Concat(text, z3.StringVal("="), dflt)
+            spec_parts.append(text)
+        if kind == "positional_only" and present[kind]:
+            spec_parts.append(z3.StringVal("/"))
+    if params:
+        P.assume(body.k == [k for k, _ in CHILD_KINDS].index("str"))     # the grouping of the body does not depend on the parameters: decided on `lambda: <body>`
+    lam = SObj("ExprLambda", {"parameters": params, "body": body.value(P)}, ident=z3.Int("lambda_id"), frozen=True)
+    kind2, text = outcome(P, lambda: render(P, lam))
+    if kind2 == "raise":
+        P.prove("str_never_raises", False, exc=P.resolve_cls(text))
+        return
+    joined = None
+    for part in spec_parts:
+        joined = part if joined is None else z3.Concat(joined, z3.StringVal(", "), part)
+    head = z3.StringVal("lambda") if joined is None else z3.Concat(z3.StringVal("lambda "), joined)
+    P.prove("text_is_lambda_parameters_with_markers_colon_body", text == z3.Concat(head, z3.StringVal(": "), need(body, TEST)))
 
 
 @lemma("Name", ["_build_name", "ExprName.iterate"])
